@@ -138,6 +138,6 @@ if __name__ == "__main__":
     if len(sys.argv) > 2:
         os.environ["HPO_MUTANT"] = sys.argv[2]
     ck = core.Check(pid, "thorough", 0, write_evidence=False)
-    run(ck, pid, {"seed": 0})
+    run(ck, pid, {"seed": 0, "root": os.environ.get("HPO_ROOT")})
     for o in ck.obligations:
         print("%-5s %s | %s" % (o["ok"], o["key"], o["msg"][:230]))
